@@ -440,6 +440,68 @@ let judge id (c : cursor) (r : cursor) : bool * string =
            disagree (weight_clause ()) site ("weights impl " ^ str_vec w ^ " model " ^ str_vec mw));
       (k >= 1 && k < n || k >= 2, Printf.sprintf "lpi.k%s" (if k = 0 then "0" else if k = 1 then "1" else "n"))
     end
+  | "ubp" ->
+    let site = "extractBestUsefulPoints" in
+    check_abnormal r site;
+    let (w, _) = read_vecs c in
+    let (pts, _) = read_vecs c in
+    let b = next_int r in let arr = read_impl_array r in
+    let n = List.length pts in
+    (* O *)
+    if not (is_perm arr pts) then oracle_fail "useful_points_perm" site "array is not a permutation of the input points";
+    if b < 0 || b > n then oracle_fail "useful_points_bound" site "returned iterator out of range";
+    let kept = take b arr in
+    if w = [] then begin
+      if b <> 0 || not (vecs_eq arr pts) then oracle_fail "useful_points_empty_planes" site "no hyperplanes: nothing may be kept or moved"
+    end else begin
+      if not (useful_coverb w kept pts) then begin
+        let bad = List.filter (fun p -> not (useful_coverb w kept [p])) pts in
+        oracle_fail "useful_points_cover" site ("point " ^ str_vec (List.hd bad) ^ " has no kept point supporting the same hyperplane with at least its value; kept " ^ str_vecs kept)
+      end;
+      (* documented: one point per supported hyperplane *)
+      let idxs = List.map (fun q -> match supV w q with Some (j, _) -> nat_i j | None -> -1) kept in
+      if List.length (List.sort_uniq compare idxs) <> List.length idxs then
+        oracle_fail "useful_points_one_per_plane" site ("two kept points support the same hyperplane; kept " ^ str_vecs kept)
+    end;
+    (* C *)
+    (match extractBestUsefulPointsV w pts with
+     | None -> disagree site site "model: unchecked access / out of fuel"
+     | Some (mk, mr) ->
+       if List.length mk <> b then disagree site site (Printf.sprintf "bound impl %d model %d" b (List.length mk));
+       if not (vecs_eq (mk @ mr) arr) then disagree site site ("order differs: impl " ^ str_vecs arr ^ " model " ^ str_vecs (mk @ mr)));
+    let sups = List.map (fun p -> match supV w p with Some (j, _) -> nat_i j | None -> -1) pts in
+    let shared = List.length (List.sort_uniq compare sups) < n in
+    (w <> [] && b < n && b > 0, if w = [] then "ubp.noplanes" else if shared then (if b >= List.length w then "ubp.full" else "ubp.shared") else "ubp.distinct")
+  | "fbdd" ->
+    let site = "findBestDeltaDominated" in
+    check_abnormal r site;
+    let (l, d) = read_vecs c in
+    let point = read_vec c d in let plane = read_vec c d in let delta = next_q c in
+    let idx = next_int r in
+    let n = List.length l in
+    (* a comparison closer than rounding can resolve: skip (never happens on the dyadic generator) *)
+    let fragile = List.exists (fun base -> List.exists (fun x ->
+        let diff = q_sub (dot point x) (dot point base) in
+        let df = List.map2 q_sub x base in
+        let lhs = q_mul diff diff and rhs = q_mul (q_mul delta delta) (dot df df) in
+        q_lt q_zero diff && not (q_eq lhs rhs) && q_le (q_abs (q_sub lhs rhs)) (q_mul (q_of_ints 1 1000000000) (q_add lhs rhs))) l) (plane :: l) in
+    if fragile then (false, "fbdd.fragile") else begin
+      if idx < 0 || idx > n then oracle_fail "deltaDominated_range" site "returned iterator out of range";
+      if idx = n then begin
+        List.iter (fun x -> if ddomb point delta plane x then oracle_fail "deltaDominated_none" site ("end returned although " ^ str_vec x ^ " delta-dominates the plane")) l
+      end else begin
+        let a = List.nth l idx in
+        if not (q_lt (dot point plane) (dot point a)) then oracle_fail "deltaDominated_higher" site "returned entry is not higher than the plane at the point";
+        if not (List.exists (fun base -> ddomb point delta base a) (plane :: take idx l)) then
+          oracle_fail "deltaDominated_pred" site ("returned entry " ^ str_vec a ^ " delta-dominates neither the plane nor any earlier entry");
+        List.iter (fun x -> if ddomb point delta a x then oracle_fail "deltaDominated_chain_end" site ("later entry " ^ str_vec x ^ " delta-dominates the returned one")) (drop (idx + 1) l)
+      end;
+      (match findBestDeltaDominatedV point delta plane l with
+       | None -> if idx <> n then disagree site site (Printf.sprintf "impl %d model end" idx)
+       | Some mi -> if nat_i mi <> idx then disagree site site (Printf.sprintf "impl %d model %d" idx (nat_i mi)));
+      let cands = List.length (List.filter (fun x -> ddomb point delta plane x) l) in
+      (idx < n && cands >= 1, if idx = n then "fbdd.end" else if cands >= 2 then "fbdd.chain" else "fbdd.one")
+    end
   | k -> failwith ("unknown case kind " ^ k)
 
 let () = main_loop judge
